@@ -13,6 +13,8 @@ structure DrvState where
   ogm : OGMDrv := {}
   hd : HDDrv := {}
   ac : ACDrv := {}
+  ccClasses : Counter := {}
+  ccCnt : Counter := {}
   bad : Nat := 0
 
 partial def loop (h : IO.FS.Stream) (out : IO.FS.Stream) (s : DrvState) : IO DrvState := do
@@ -39,6 +41,22 @@ partial def loop (h : IO.FS.Stream) (out : IO.FS.Stream) (s : DrvState) : IO Drv
     let (o', outs) := hdLine s.hd n rest
     for o in outs do out.putStrLn o
     loop h out { s with lineNo := n, hd := o' }
+  | "cc" :: "anomaly" :: cls :: _ =>
+    out.putStrLn s!"MONITOR {cls} layer=cc hist=burst line={n}"
+    loop h out { s with lineNo := n, ccClasses := s.ccClasses.bump cls }
+  | "cc" :: "actions" :: rest =>
+    let settled := (kv rest "settled").getD "0" == "1"
+    let conserved := (kv rest "conserved").getD "0" == "1"
+    let acc := (kvNat rest "accepted").getD 0
+    let cur := (kvNat rest "by_current").getD 0
+    let vs := (if settled then [] else ["C16.hand-did-not-settle-after-simultaneous-actions"]) ++
+              (if conserved then [] else ["C16.chips-not-conserved-after-simultaneous-actions"]) ++
+              (if acc == cur then [] else ["C16.action-accepted-from-a-player-whose-turn-it-was-not"])
+    for v in vs do out.putStrLn s!"MONITOR {v} layer=cc hist=burst line={n}"
+    loop h out { s with lineNo := n, ccClasses := vs.foldl (fun c v => c.bump v) s.ccClasses,
+                        ccCnt := (s.ccCnt.bump "action-bursts").bump "actions-accepted" acc }
+  | "cc" :: "sm" :: _ => loop h out { s with lineNo := n, ccCnt := s.ccCnt.bump "sm-bursts" }
+  | "cc" :: _ => loop h out { s with lineNo := n }
   | "ac" :: rest =>
     let (o', outs) := acLine s.ac n rest
     for o in outs do out.putStrLn o
@@ -56,4 +74,6 @@ def main : IO Unit := do
   for l in s.ogm.summary do stdout.putStrLn l
   for l in s.hd.summary do stdout.putStrLn l
   for l in s.ac.summary do stdout.putStrLn l
+  stdout.putStrLn s!"SUMMARY cc {s.ccCnt.render}"
+  stdout.putStrLn s!"CLASSES cc {s.ccClasses.render}"
   stdout.putStrLn s!"DONE lines={s.lineNo}"
